@@ -1,12 +1,30 @@
-"""C17: pipelines for the worker-count runs of the thorough tier.
+"""C17: pipelines for the worker-count runs.
 
-`make_jobs(rng)` returns groups; the first job of a group is the serial run
-(`--num-workers 0`), the others repeat it with workers in {1, 3} and chunk sizes {1, 2}. A step
-is [function name, argv, flags] where flags says which pool options the command accepts
-("wc": --num-workers and --mp-chunk-size, "w": --num-workers only, "": none).
+A *group* is one pipeline of commands on one corpus; its first job is the serial run
+(`--num-workers 0`), the others repeat it with other worker counts / chunk sizes and must leave
+the same output files and printed figures. A step is [function name, argv, flags] where flags
+says which pool options the command accepts ("wc": --num-workers and --mp-chunk-size,
+"w": --num-workers only, "": none).
+
+Three families of groups:
+
+* `make_jobs(rng)` — the thorough tier's runs on a 7-utterance corpus, workers {0,1,3} x chunk
+  {1,2}, real `spawn` pools.
+* `make_small_groups(rng, tier)` — the SAME pipelines (every command that is routed through
+  `_multiprocessor_pattern(_generator)` or a `DataLoader(num_workers=...)`) on the corpora a pool is
+  most easily wrong on: the EMPTY corpus, ONE utterance (fewer items than workers, fewer items than
+  the chunk size) and THREE utterances (a chunk of 2 leaves a remainder), workers {0,1,2} x chunk
+  {1,2}. Every group is swept with the pool's start method substituted by `fork` (start-up of a
+  worker in milliseconds instead of a fresh `import torch`; the pool logic — size, initializer
+  arguments, `imap_unordered`, chunking, accumulation of the results — is the library's); with the
+  library's own `spawn` start method the empty corpus is run for every pipeline (a pool that has
+  nothing to do never waits for its workers) and, in the quick tier, a rotating sample of the
+  non-empty ones (all of them in the thorough tier).
 """
 
 SETTINGS = [(0, None), (1, 1), (1, 2), (3, 1), (3, 2)]
+SMALL_SETTINGS = [(0, None), (1, 1), (2, 1), (2, 2)]
+SMALL_SIZES = [0, 1, 3]
 
 
 def tensor(data, shape=None, dtype="long"):
@@ -23,20 +41,14 @@ def textgrid_text(toks):
     return "\n".join(out) + "\n"
 
 
-def make_jobs(rng):
-    groups = []
-    utts = ["u%02d" % i for i in range(7)]
-    rng.shuffle(utts)
-    p, s = rng.choice([("", ".pt"), ("p_", ".pt"), ("x.", "_s")])
+def pipelines(rng, utts, p, s, n_timed=None):
+    """-> list of (name, inputs, outputs, steps) over the utterance ids `utts` (may be empty)."""
+    out = []
     na = ["--file-prefix=" + p, "--file-suffix=" + s]
     vocab = [["a", 1], ["b", 2], ["c", 5]]
     t2i = "".join(f"{t} {i}\n" for t, i in vocab)
     i2t = "".join(f"{i} {t}\n" for t, i in vocab)
-
-    def group(name, inputs, outputs, steps):
-        jobs = [{"inputs": inputs, "outputs": outputs, "steps": steps, "workers": w, "chunk": c}
-                for w, c in SETTINGS]
-        groups.append({"name": name, "jobs": jobs})
+    N = len(utts)
 
     # 1. ali -> token -> ali
     alis = {}
@@ -46,21 +58,21 @@ def make_jobs(rng):
             a += [rng.randint(0, 3)] * rng.randint(1, 3)
         alis[p + u + s] = tensor(a)
     alis["junk.zz"] = tensor([1, 1])
-    group("ali->token->ali", {"ali": {"type": "tensor_dir", "files": {"": alis}}}, ["ref", "ali2"],
-          [["torch_ali_data_dir_to_torch_token_data_dir", ["{ali}", "{ref}"] + na, "wc"],
-           ["torch_token_data_dir_to_torch_ali_data_dir", ["{ref}", "{ali2}"] + na, "wc"]])
+    out.append(("ali->token->ali", {"ali": {"type": "tensor_dir", "files": {"": alis}}}, ["ref", "ali2"],
+                [["torch_ali_data_dir_to_torch_token_data_dir", ["{ali}", "{ref}"] + na, "wc"],
+                 ["torch_token_data_dir_to_torch_ali_data_dir", ["{ref}", "{ali2}"] + na, "wc"]]))
 
     # 2. trn -> token dir -> trn
     trn = "".join("".join(rng.choice("abc") + " " for _ in range(rng.randint(0, 4))) + f"({u})\n" for u in utts)
-    group("trn->token->trn", {"in_trn": {"type": "text", "text": trn}, "t2i": {"type": "text", "text": t2i},
-                              "i2t": {"type": "text", "text": i2t}}, ["tok", "out_trn"],
-          [["trn_to_torch_token_data_dir", ["{in_trn}", "{t2i}", "{tok}", "--skip-frame-times"] + na, "wc"],
-           ["torch_token_data_dir_to_trn", ["{tok}", "{i2t}", "{out_trn}"] + na, "w"]])
+    out.append(("trn->token->trn", {"in_trn": {"type": "text", "text": trn}, "t2i": {"type": "text", "text": t2i},
+                                    "i2t": {"type": "text", "text": i2t}}, ["tok", "out_trn"],
+                [["trn_to_torch_token_data_dir", ["{in_trn}", "{t2i}", "{tok}", "--skip-frame-times"] + na, "wc"],
+                 ["torch_token_data_dir_to_trn", ["{tok}", "{i2t}", "{out_trn}"] + na, "w"]]))
 
     # 3. ctm -> token dir -> ctm
     ctm = ""
     timed = {}
-    for u in utts[:5]:
+    for u in utts[:n_timed]:
         t, toks = 0, []
         for _ in range(rng.randint(1, 3)):
             d = rng.randint(20, 80)
@@ -68,24 +80,28 @@ def make_jobs(rng):
             ctm += f"{u} A {t / 1000.0} {d / 1000.0} {toks[-1][0]}\n"
             t += d + 10
         timed[u] = toks
-    group("ctm->token->ctm", {"in_ctm": {"type": "text", "text": ctm}, "t2i": {"type": "text", "text": t2i},
-                              "i2t": {"type": "text", "text": i2t}}, ["tok", "out_ctm"],
-          [["ctm_to_torch_token_data_dir", ["{in_ctm}", "{t2i}", "{tok}"] + na, "wc"],
-           ["torch_token_data_dir_to_ctm", ["{tok}", "{i2t}", "{out_ctm}"] + na, ""]])
+    out.append(("ctm->token->ctm", {"in_ctm": {"type": "text", "text": ctm}, "t2i": {"type": "text", "text": t2i},
+                                    "i2t": {"type": "text", "text": i2t}}, ["tok", "out_ctm"],
+                [["ctm_to_torch_token_data_dir", ["{in_ctm}", "{t2i}", "{tok}"] + na, "wc"],
+                 ["torch_token_data_dir_to_ctm", ["{tok}", "{i2t}", "{out_ctm}"] + na, ""]]))
 
     # 4. textgrids -> token dir -> textgrids
     tgs = {p + u + ".TextGrid": textgrid_text(toks) for u, toks in timed.items()}
-    group("textgrid->token->textgrid",
-          {"tg": {"type": "dir", "files": tgs}, "t2i": {"type": "text", "text": t2i},
-           "i2t": {"type": "text", "text": i2t}}, ["tok", "tg2"],
-          [["textgrids_to_torch_token_data_dir", ["{tg}", "{t2i}", "{tok}"] + na, "wc"],
-           ["torch_token_data_dir_to_textgrids", ["{tok}", "{i2t}", "{tg2}", "--infer"] + na, "wc"]])
+    tgs["notes.txt"] = "not a TextGrid\n"
+    out.append(("textgrid->token->textgrid",
+                {"tg": {"type": "dir", "files": tgs}, "t2i": {"type": "text", "text": t2i},
+                 "i2t": {"type": "text", "text": i2t}}, ["tok", "tg2"],
+                [["textgrids_to_torch_token_data_dir", ["{tg}", "{t2i}", "{tok}"] + na, "wc"],
+                 ["torch_token_data_dir_to_textgrids", ["{tok}", "{i2t}", "{tg2}", "--infer"] + na, "wc"]]))
 
-    # 5. subset (shortest-n reads lengths through a DataLoader, then copies through the pool)
+    # 5. subset (shortest-n reads the lengths through a DataLoader, then copies through the pool;
+    #    first-ratio goes straight to the pool)
     feat = {p + u + s: tensor([[float(i)] * 2] * rng.randint(1, 4), None, "float32") for i, u in enumerate(utts)}
     ali = {p + u + s: tensor([i, i]) for i, u in enumerate(utts[:4])}
-    group("subset shortest-n", {"src": {"type": "tensor_dir", "files": {"feat": feat, "ali": ali}}}, ["dest"],
-          [["subset_torch_spect_data_dir", ["{src}", "{dest}", "--shortest-n", "4", "--copy"] + na, "wc"]])
+    crit = rng.choice([["--shortest-n", str(N // 2 + 1)], ["--first-ratio", "0.75"], ["--longest-n", str(N + 1)]])
+    out.append(("subset " + " ".join(crit),
+                {"src": {"type": "tensor_dir", "files": {"feat": feat, "ali": ali}}}, ["dest"],
+                [["subset_torch_spect_data_dir", ["{src}", "{dest}", "--copy"] + crit + na, "wc"]]))
 
     # 6. length moments of ali and ref
     refs = {}
@@ -96,14 +112,96 @@ def make_jobs(rng):
             rows.append([rng.randint(0, 3), t, t + d])
             t += d
         refs[p + u + s] = tensor(rows, [len(rows), 3])
-    group("ali length moments", {"ali": {"type": "tensor_dir", "files": {"": alis}}}, ["m_txt"],
-          [["print_torch_ali_data_dir_length_moments", ["{ali}", "{m_txt}", "--exclude-ids", "0"] + na, "wc"]])
-    group("ref length moments", {"ref": {"type": "tensor_dir", "files": {"": refs}}}, ["m_txt"],
-          [["print_torch_ref_data_dir_length_moments", ["{ref}", "{m_txt}", "--quiet", "--bessel"] + na, "wc"]])
+    out.append(("ali length moments", {"ali": {"type": "tensor_dir", "files": {"": alis}}}, ["m_txt"],
+                [["print_torch_ali_data_dir_length_moments", ["{ali}", "{m_txt}", "--exclude-ids", "0"] + na, "wc"]]))
+    out.append(("ref length moments", {"ref": {"type": "tensor_dir", "files": {"": refs}}}, ["m_txt"],
+                [["print_torch_ref_data_dir_length_moments", ["{ref}", "{m_txt}", "--quiet", "--bessel"] + na, "wc"]]))
 
     # 7. MVN statistics, grouped
     id2gid = "".join(f"{u} g{i % 2}\n" for i, u in enumerate(utts))
-    group("mvn stats", {"feat": {"type": "tensor_dir", "files": {"": feat}},
-                        "id2gid": {"type": "text", "text": id2gid}}, ["stats_pt"],
-          [["compute_mvn_stats_for_torch_feat_data_dir", ["{feat}", "{stats_pt}", "--id2gid", "{id2gid}"] + na, "w"]])
+    out.append(("mvn stats", {"feat": {"type": "tensor_dir", "files": {"": feat}},
+                              "id2gid": {"type": "text", "text": id2gid}}, ["stats_pt"],
+                [["compute_mvn_stats_for_torch_feat_data_dir", ["{feat}", "{stats_pt}", "--id2gid", "{id2gid}"] + na, "w"]]))
+
+    # 8. chunking a SpectDataSet directory (feat + ali + ref) into windows
+    cfeat, cali, cref = {}, {}, {}
+    for i, u in enumerate(utts):
+        T = rng.randint(2, 6)
+        cfeat[p + u + s] = tensor([[float(i), float(t)] for t in range(T)], None, "float32")
+        cali[p + u + s] = tensor([(t // 2) % 3 for t in range(T)])
+        cref[p + u + s] = tensor([[1, 0, T // 2], [2, T // 2, T]], [2, 3])
+    policy = rng.choice([["--policy", "fixed", "--lobe-size", "1"], ["--policy", "ali"], ["--policy", "ref"],
+                         ["--policy", "fixed", "--lobe-size", "1", "--pad-mode", "replicate"]])
+    out.append(("chunk " + " ".join(policy),
+                {"src": {"type": "tensor_dir", "files": {"feat": cfeat, "ali": cali, "ref": cref}}}, ["dest"],
+                [["chunk_torch_spect_data_dir", ["{src}", "{dest}", "--quiet"] + policy + na, "wc"]]))
+    return out
+
+
+def affixes(rng):
+    return rng.choice([("", ".pt"), ("p_", ".pt"), ("x.", "_s")])
+
+
+def make_jobs(rng):
+    """Thorough tier: 7 utterances, workers {0,1,3} x chunk {1,2}, real spawn pools."""
+    utts = ["u%02d" % i for i in range(7)]
+    rng.shuffle(utts)
+    p, s = affixes(rng)
+    groups = []
+    for name, inputs, outputs, steps in pipelines(rng, utts, p, s, n_timed=5):
+        jobs = [{"inputs": inputs, "outputs": outputs, "steps": steps, "workers": w, "chunk": c, "start": "spawn"}
+                for w, c in SETTINGS]
+        groups.append({"name": name, "n_utts": len(utts), "start": "spawn", "jobs": jobs})
     return groups
+
+
+def pool_steps(steps):
+    """Number of steps that open a multiprocessing pool (flags "wc")."""
+    return sum(1 for _, _, fl in steps if fl == "wc")
+
+
+def make_small_groups(rng, tier):
+    """Quick and thorough tiers: every pipeline on 0, 1 and 3 utterances, workers {0,1,2} x chunk
+    {1,2}; see the module docstring for which groups run under `fork` and which under `spawn`."""
+    groups = []
+    per_size = {}
+    for n in SMALL_SIZES:
+        utts = ["u%d" % i for i in range(n)]
+        rng.shuffle(utts)
+        p, s = affixes(rng)
+        per_size[n] = pipelines(rng, utts, p, s)
+
+    def add(n, pl, start, settings):
+        name, inputs, outputs, steps = pl
+        jobs = [{"inputs": inputs, "outputs": outputs, "steps": steps, "workers": w, "chunk": c, "start": start}
+                for w, c in settings]
+        groups.append({"name": name, "n_utts": n, "start": start, "jobs": jobs})
+
+    for n in SMALL_SIZES:
+        for pl in per_size[n]:
+            add(n, pl, "fork", SMALL_SETTINGS)
+    # the library's own start method: the empty corpus for every pipeline ...
+    for pl in per_size[0]:
+        add(0, pl, "spawn", [(0, None), (1, 1), (2, 2)])
+    # ... and the non-empty ones: all (thorough) or a rotating sample (quick): one utterance with two
+    # workers, three utterances with chunks of two, one utterance with one worker
+    if tier == "thorough":
+        for n in (1, 3):
+            for pl in per_size[n]:
+                add(n, pl, "spawn", SMALL_SETTINGS)
+    else:
+        pooled = [i for i, pl in enumerate(per_size[1]) if pool_steps(pl[3]) >= 1]
+        picks = rng.sample(pooled, 3)
+        add(1, per_size[1][picks[0]], "spawn", [(0, None), (2, 1)])
+        add(3, per_size[3][picks[1]], "spawn", [(0, None), (2, 2)])
+        add(1, per_size[1][picks[2]], "spawn", [(0, None), (1, 2)])
+    return groups
+
+
+def cost(job, n_utts):
+    """Rough wall-clock estimate (s) of one job, for spreading jobs over parallel subprocesses."""
+    if job["workers"] == 0:
+        return 0.05
+    if job["start"] == "fork" or n_utts == 0:
+        return 0.1 * len(job["steps"])
+    return 0.1 + 2.5 * job["workers"] * pool_steps(job["steps"])
